@@ -49,10 +49,11 @@ type Instance struct {
 	Reaped     bool
 
 	// observations (guarded by W.Mu)
-	cfgOKKey  string // CheckLatestCfg cache
-	cfgOKOps  int
-	LastState raft.RaftState
-	States    []StateObs
+	installing bool   // inside the InstallSnapshot handler, between the snapshot becoming durable and the response
+	cfgOKKey   string // CheckLatestCfg cache
+	cfgOKOps   int
+	LastState  raft.RaftState
+	States     []StateObs
 }
 
 type StateObs struct {
